@@ -41,24 +41,33 @@ KEYS = {41: 'recents-wrap:number<limit', 42: 'recents-deleted-by-trusting-period
 
 
 class Intern:
-    """names long byte strings once per Coq file"""
+    """names byte strings (and whole store entries) once per Coq file; bytes are given as hex text"""
 
     def __init__(self):
         self.names = {}
         self.defs = []
 
     def b(self, hexs):
-        if len(hexs) <= 8:
-            return vlib.coq_literal_bytes(bytes.fromhex(hexs))
+        if len(hexs) == 0:
+            return '[]'
         n = self.names.get(hexs)
         if n is None:
             n = 'b%d' % len(self.names)
             self.names[hexs] = n
             raw = bytes.fromhex(hexs)
-            if raw == bytes(len(raw)):
+            if len(raw) >= 8 and raw == bytes(len(raw)):
                 self.defs.append('Definition %s : bytes := zeros %d.' % (n, len(raw)))
             else:
-                self.defs.append('Definition %s : bytes := %s.' % (n, vlib.coq_literal_bytes(raw)))
+                self.defs.append('Definition %s : bytes := Eval vm_compute in unhex "%s".' % (n, hexs))
+        return n
+
+    def term(self, typ, text):
+        """a named definition for a repeated composite term"""
+        n = self.names.get((typ, text))
+        if n is None:
+            n = 'e%d' % len(self.names)
+            self.names[(typ, text)] = n
+            self.defs.append('Definition %s : %s := %s.' % (n, typ, text))
         return n
 
 
@@ -76,14 +85,14 @@ def hdr_term(it, h):
 
 
 def kv_list(it, kvs):
-    return coq_list(['(%s, %s)' % (it.b(e['k']), it.b(e['v'])) for e in kvs])
+    return coq_list([it.term('(bytes * bytes)', '(%s, %s)' % (it.b(e['k']), it.b(e['v']))) for e in kvs])
 
 
 def state_term(it, s):
     head = coq_option('%d%%nat' % s['head'] if s['head'] >= 0 else None)
     pend = coq_option(coq_list([it.b(v) for v in s['pending']]) if s['pending_present'] else None)
-    cons = coq_list(['(%s, (%s, (%s, %s), %s))' % (it.b(c['key']), N(c['time']), N(c['rev']), N(c['num']), it.b(c['root']))
-                     for c in s['cons']])
+    cons = coq_list([it.term('(bytes * (N * height * bytes))', '(%s, (%s, (%s, %s), %s))' % (
+        it.b(c['key']), N(c['time']), N(c['rev']), N(c['num']), it.b(c['root']))) for c in s['cons']])
     return ('{| o_exists := %s; o_head := %s; o_vals := %s; o_rest_same := %s; o_recents := %s; o_pending := %s; '
             'o_cons := %s; o_other := %s |}') % (
         coq_bool(s['exists']), head, coq_list([it.b(v) for v in s['vals']]), coq_bool(s['rest_same']),
